@@ -46,7 +46,7 @@ def configs(tier):
                 out.append(dict(kind="image", dim=dim, shape=shape, vector=vector, series=series, timeinfo=timeinfo))
     for dt in ("bool", "uint8", "uint16", "float32", "float64"):
         out.append(dict(kind="image_dtype", dtype=dt))
-    for dt in ("float", "uint8", "uint16", "float32"):
+    for dt in ("float", "uint8", "uint16", "float32", "float64"):
         out.append(dict(kind="type_correction", dtype=dt))
     for roi in ("slices", "points", "none"):
         for active in (False, True):
@@ -221,16 +221,18 @@ def _body(cfg, darsia, tmp):
         S.claim("reloaded_metadata_identical", _same_meta(back, img))
         return
     if k == "type_correction":
-        T = {"float": float, "uint8": np.uint8, "uint16": np.uint16, "float32": np.float32}[cfg["dtype"]]
+        T = {"float": float, "uint8": np.uint8, "uint16": np.uint16, "float32": np.float32, "float64": np.float64}[cfg["dtype"]]
         c = darsia.TypeCorrection(T)
         path = tmp / "type.npz"
         c.save(path)
         r = darsia.read_correction(path)
         S.claim("reader_returns_the_saved_class", type(r) is darsia.TypeCorrection)
-        S.claim("type_correction_reloads_its_data_type", r.data_type == c.data_type)
-        raw = np.arange(12, dtype=np.uint8).reshape(3, 4) * 20
-        o1, o2 = c.correct_array(raw.copy()), r.correct_array(raw.copy())
-        S.claim("reloaded_correction_gives_identical_output", bool(o1.dtype == o2.dtype and np.array_equal(o1, o2)))
+        S.claim("type_correction_reloads_its_data_type", r.data_type is c.data_type)
+        same = []
+        for raw in (np.arange(12, dtype=np.uint8).reshape(3, 4) * 20, (np.arange(12, dtype=np.uint16).reshape(3, 4) * 5000), np.linspace(0, 1, 12, dtype=np.float32).reshape(3, 4), np.linspace(0, 1, 12).reshape(3, 4)):
+            o1, o2 = c.correct_array(raw.copy()), r.correct_array(raw.copy())
+            same.append(bool(o1.dtype == o2.dtype and np.array_equal(o1, o2)))
+        S.claim("reloaded_correction_gives_identical_output", all(same))
         return
     if k == "drift_correction":
         base = np.arange(48, dtype=float).reshape(4, 4, 3) / 48.0
@@ -309,10 +311,15 @@ def _body(cfg, darsia, tmp):
         rng = np.random.default_rng(3)
         ok = []
         for dt, ext in ((np.uint8, ".png"), (np.uint16, ".png"), (np.uint8, ".tif"), (np.uint16, ".tif")):
-            rgb = rng.integers(0, np.iinfo(dt).max, size=(5, 7, 3)).astype(dt)
-            okb, buf = cv2.imencode(ext, cv2.cvtColor(rgb, cv2.COLOR_RGB2BGR))
-            back = darsia.imread_from_bytes(buf.tobytes(), dimensions=[1.0, 1.4])
-            ok.append(bool(okb and isinstance(back, darsia.OpticalImage) and back.img.dtype == dt and np.array_equal(back.img, rgb)))
+            for shp in ((5, 7), (1, 6), (6, 1), (1, 1)):
+                rgb = rng.integers(0, np.iinfo(dt).max, size=shp + (3,)).astype(dt)
+                okb, buf = cv2.imencode(ext, cv2.cvtColor(rgb, cv2.COLOR_RGB2BGR))
+                back = darsia.imread_from_bytes(buf.tobytes(), dimensions=[1.0, 1.4])
+                ok.append(bool(okb and isinstance(back, darsia.OpticalImage) and back.img.dtype == dt and back.img.shape == rgb.shape and np.array_equal(back.img, rgb)))
+                grey = rng.integers(0, np.iinfo(dt).max, size=shp).astype(dt)
+                okb, buf = cv2.imencode(ext, grey)
+                back = darsia.imread_from_bytes(buf.tobytes(), dimensions=[1.0, 1.4])
+                ok.append(bool(okb and isinstance(back, darsia.ScalarImage) and back.img.dtype == dt and np.array_equal(np.squeeze(back.img), np.squeeze(grey)) and back.img.shape[:2] == shp))
         S.claim("lossless_byte_strings_decode_to_the_original_rgb_array", all(ok))
         ok = []
         for ext in (".png", ".tif"):
